@@ -2,7 +2,7 @@
    (The ADVAN/TRANS table obligations are REGENERATED from advan.py on every run into
    build/gen/C01/AdvanObligations.v and compiled there; see harness/props/c01_tadvan.py.) *)
 From Coq Require Import QArith List Bool PArith Arith.
-From PV Require Import Base.PyData Base.Expr Base.Stmts C01.Model C01.Proofs C01.ProofsRates C01.ProofsParams.
+From PV Require Import Base.PyData Base.Expr Base.Stmts C01.Model C01.Proofs C01.ProofsRates C01.ProofsParams C01.ProofsOmega.
 Local Open Scope nat_scope.
 
 (* Reading abbreviated code preserves its meaning.  For EVERY program (any length, any nesting,
@@ -98,3 +98,36 @@ Theorem same_repeats_previous :
     rv_cov d2 = rv_cov d1 /\ length (rv_etas d2) = length (rv_etas d1) /\
     rv_etas d2 = seq (e + length (rv_etas d1)) (length (rv_etas d1)).
 Proof. exact same_repeats_previous_lemma. Qed.
+
+(* $OMEGA / $SIGMA BLOCK records in the forms VARIANCE|STANDARD x COVARIANCE|CORRELATION.  For every
+   function sqrt that is a square root on the non-negative rationals, every size and every
+   covariance matrix S (lower triangle) with positive diagonal: writing S in form f (standard
+   deviations on the diagonal and/or correlations off it) and reading the values back with the
+   model of OmegaRecord.parse gives S again, entry by entry. *)
+Theorem sdcorr_forms :
+  forall (sqrt : Q -> Q),
+    (forall x, (0 <= x)%Q -> (sqrt x * sqrt x == x)%Q) -> (forall x, (0 < x)%Q -> (0 < sqrt x)%Q) ->
+    forall (f : oform) (S : list (list Q)),
+      f <> FChol -> (forall i, i < length S -> (0 < tget S i i)%Q) ->
+      forall i j, i < length S -> j <= i ->
+        (tget (parse_form sqrt f (encode sqrt f S)) i j == tget S i j)%Q.
+Proof. exact sdcorr_forms_lemma. Qed.
+
+(* For every form, CHOLESKY included (the record holds L, the matrix is L * L^T with full sums),
+   every lower triangle of written values and every sqrt, parse() computes NONMEM's definition
+   nm_cov of the form on the full symmetric matrix of the written values. *)
+Theorem parse_form_spec :
+  forall (sqrt : Q -> Q) (f : oform) (rows : list (list Q)) (i j : nat),
+    i < length rows -> j <= i ->
+    (tget (parse_form sqrt f rows) i j == nm_cov sqrt f (length rows) (sym_of rows) i j)%Q.
+Proof. exact parse_form_spec_lemma. Qed.
+
+(* the matrix a record denotes is symmetric, and a CHOLESKY record has a non-negative diagonal *)
+Theorem nm_cov_symmetric :
+  forall (sqrt : Q -> Q) f n (M : nat -> nat -> Q) i j,
+    (forall a b, M a b = M b a) -> (nm_cov sqrt f n M i j == nm_cov sqrt f n M j i)%Q.
+Proof. exact nm_cov_symmetric_lemma. Qed.
+
+Theorem cholesky_diag_nonneg :
+  forall (sqrt : Q -> Q) n (M : nat -> nat -> Q) i, (0 <= nm_cov sqrt FChol n M i i)%Q.
+Proof. exact cholesky_diag_nonneg_lemma. Qed.
